@@ -421,64 +421,88 @@ def state_obs(t):
 # seeded operations that accept a pool: the result must not depend on the ORDER in which the pool runs the tasks.
 # Two deterministic in-line executors (no threads): tasks are queued on submit and all pending ones run, in FIFO
 # resp. LIFO order, as soon as any result / done() is asked for.
-class _LazyFuture:
-    def __init__(self, ex):
+class _SchedFuture:
+    def __init__(self, ex, fn, args, kwargs):
         self._ex = ex
+        self._task = (fn, args, kwargs)
         self._set = False
         self._res = None
         self._exc = None
 
-    def _finish(self, res=None, exc=None):
-        self._set, self._res, self._exc = True, res, exc
+    def _run(self):
+        fn, args, kwargs = self._task
+        self._ex.running_with = max(self._ex.running_with, len(self._ex.pending))
+        self._ex.pending.remove(self)
+        try:
+            self._res = fn(*args, **kwargs)
+        except BaseException as e:     # noqa: BLE001
+            self._exc = e
+        self._set = True
+        self._ex.completed.append(self)
 
     def result(self, timeout=None):
-        if not self._set:
-            self._ex.flush()
+        # blocking: everything the schedule puts before this task completes first
+        while not self._set:
+            self._ex.next_task()._run()
         if self._exc is not None:
             raise self._exc
         return self._res
 
     def done(self):
-        if not self._set:
-            self._ex.flush()
-        return True
+        """True only once every task that the schedule puts before this one has completed; the task that is next in
+        the schedule runs inside this call"""
+        if self._set:
+            return True
+        ex = self._ex
+        if ex.next_task() is self:
+            self._run()
+            ex.starved = 0
+            return True
+        ex.starved += 1
+        if ex.starved > 10000:          # a caller that never polls the next task must not hang
+            ex.next_task()._run()
+            ex.starved = 0
+        return self._set
 
     def cancel(self):
         return False
 
 
 class OrderedExecutor:
+    """a deterministic in-line pool (no threads): tasks are queued on submit; they COMPLETE in a controlled order --
+    submission order (lifo=False) or reverse submission order among the pending ones (lifo=True) -- both for
+    callers that block on result() and for callers that poll done() / iterate in completion order"""
+
     def __init__(self, lifo, workers=2):
         self.lifo = lifo
         self._max_workers = workers
         self.pending = []
-        self.batches = []
+        self.completed = []
+        self.running_with = 0
+        self.starved = 0
 
     def submit(self, fn, *args, **kwargs):
-        fut = _LazyFuture(self)
-        self.pending.append((fut, fn, args, kwargs))
+        fut = _SchedFuture(self, fn, args, kwargs)
+        self.pending.append(fut)
         return fut
 
-    def flush(self):
-        tasks, self.pending = self.pending, []
-        self.batches.append(len(tasks))
-        if self.lifo:
-            tasks.reverse()
-        for fut, fn, args, kwargs in tasks:
-            try:
-                fut._finish(res=fn(*args, **kwargs))
-            except BaseException as e:
-                fut._finish(exc=e)
+    def next_task(self):
+        return self.pending[-1] if self.lifo else self.pending[0]
 
     def shutdown(self, *a, **k):
-        self.flush()
+        while self.pending:
+            self.next_task()._run()
+
+    @property
+    def batches(self):
+        return [self.running_with]
 
 
 POOL_APIS = {
     "core.ContractionTree.parallel_temper": ["default"],
     "pathfinders.path_simulated_annealing.parallel_temper_tree": ["default"],
     "core.ContractionTree.subtree_reconfigure_forest": ["default", "select_max_bfs"],
-    "pathfinders.path_basic.RandomGreedyOptimizer": ["default"],
+    "pathfinders.path_basic.RandomGreedyOptimizer": ["default", "tied-lattice", "tied-ring"],
 }
 
 
@@ -495,19 +519,41 @@ def pool_call(api, variant, net, seed, parallel):
         return tree_obs_full(t.subtree_reconfigure_forest(num_trees=4, num_restarts=2, subtree_size=4, subtree_maxiter=4,
                                                           parallel=parallel, seed=seed, **kw))
     if api == "pathfinders.path_basic.RandomGreedyOptimizer":
+        if variant.startswith("tied"):
+            # uniform small lattice / ring: many different paths share the minimal cost, so several batches tie at
+            # the best flops with different paths and the tie-break of the reduction over batches is exercised
+            if variant == "tied-lattice":
+                inputs, output, _, size_dict = cutils.lattice_equation([3, 3], d_min=2, seed=0)
+            else:
+                n = 8
+                inputs = [("r%d" % i, "r%d" % ((i + 1) % n)) for i in range(n)]
+                output, size_dict = (), {"r%d" % i: 2 for i in range(n)}
+            o = ctg.RandomGreedyOptimizer(max_repeats=8, temperature=(0.5, 1.0), seed=seed, parallel=parallel, accel=False)
+            return canon([o(inputs, output, size_dict), o.best_flops])
         o = ctg.RandomGreedyOptimizer(max_repeats=6, seed=seed, parallel=parallel, accel=False)
         return canon([o(inputs, output, size_dict), o.search(inputs, output, size_dict).get_path()])
     raise KeyError("no pool runner for %s" % api)
 
 
+def canon_key(x):
+    return json.dumps(canon(x))
+
+
 def run_pool(api, variant, net, seed):
     inputs = [tuple(t) for t in net["inputs"]]
     net = {"inputs": inputs, "output": tuple(net["output"]), "size_dict": dict(net["size_dict"])}
-    fifo, lifo = OrderedExecutor(False), OrderedExecutor(True)
+    nw = 4 if variant.startswith("tied") else 2
+    fifo, lifo = OrderedExecutor(False, nw), OrderedExecutor(True, nw)
     r_fifo = pool_call(api, variant, net, seed, fifo)
     r_lifo = pool_call(api, variant, net, seed, lifo)
-    r_fifo2 = pool_call(api, variant, net, seed, OrderedExecutor(False))
+    r_fifo2 = pool_call(api, variant, net, seed, OrderedExecutor(False, nw))
     out = {"pool_used": bool(fifo.batches and max(fifo.batches) > 1)}
+    if variant.startswith("tied"):
+        # generator floor: did >= 2 batches tie at the best cost with different paths?
+        res = [f._res for f in fifo.completed if f._exc is None and isinstance(f._res, tuple) and len(f._res) == 2]
+        if res:
+            best = min(r[1] for r in res)
+            out["tied_best_batches_with_different_paths"] = len({canon_key(r[0]) for r in res if r[1] == best}) >= 2
     # the serial run: same result required where the operation does not document a dependence on the pool
     # (RandomGreedyOptimizer splits its trials over the workers: only the two orders are compared there)
     if api != "pathfinders.path_basic.RandomGreedyOptimizer":
